@@ -102,31 +102,28 @@ func TraceLines(sc *Scenario, o *Obs) []map[string]any {
 	return lines
 }
 
-// RenderTrace prints a run's events for a report.
+// RenderTrace prints the messages of a run, in order, for a report.
 func RenderTrace(o *Obs) string {
-	var b strings.Builder
-	for i, e := range o.Events {
-		if i > 0 {
-			b.WriteString("; ")
+	var parts []string
+	for _, e := range o.Events {
+		if e.Ev != "send" {
+			continue
 		}
 		dir := "C->S"
 		if e.Role == "s" {
 			dir = "S->C"
 		}
-		if e.Ev != "send" {
-			continue
-		}
 		m := e.Msg
 		switch m.Shape {
 		case "int":
-			fmt.Fprintf(&b, "%s status(%d)", dir, m.Status)
+			parts = append(parts, fmt.Sprintf("%s status(%d)", dir, m.Status))
 		case "rec":
-			fmt.Fprintf(&b, "%s status(%d)+len(%d)+%s", dir, m.Status, m.Len, DataClass(m.TLS, m.Len))
+			parts = append(parts, fmt.Sprintf("%s status(%d)+len(%d)+%s", dir, m.Status, m.Len, DataClass(m.TLS, m.Len)))
 		default:
-			fmt.Fprintf(&b, "%s <%d bytes>", dir, m.Raw)
+			parts = append(parts, fmt.Sprintf("%s <%d bytes>", dir, m.Raw))
 		}
 	}
-	return strings.ReplaceAll(b.String(), "; ; ", "; ")
+	return strings.Join(parts, "; ")
 }
 
 func hasScripted(sc *Scenario) bool { c := sc.Cfg(); return c.Cstyle != "cedar" || c.Sstyle != "cedar" }
